@@ -67,6 +67,9 @@ def one(ctx, data, meta=None, opts=pk.OPTS):
 
 def run(ctx):
     for f in stored_corpus('C03'): replay(ctx, json.load(open(f)))
+    from gen.probes import probes
+    for name, data in probes('C03'):
+        ctx.count('probe'); one(ctx, data, None)
     n = 100 if ctx.quick else 5000
     for pkg, meta, rng in stream(ctx, PROF, n):
         one(ctx, pkg.to_bytes(), meta)
